@@ -6,7 +6,7 @@
    instance [alias = negb GenC16.probe_is_copy], i.e. about the code as the translator finds it: if the copy of the
    probe disappears from route/route.go these proofs no longer type-check.
    [own] (the sharder) and [keep_rule] (wyhash(traceID, hashSeed) <= MaxUint64/SamplingRate) are arbitrary functions. *)
-From Refinery Require Import Lib.Base Model.StressRoute Proofs.StressRoute Gen.GenC16.
+From Refinery Require Import Lib.Base Model.StressRoute Proofs.StressRoute Proofs.StressRouteMore Gen.GenC16.
 From Coq Require Import Sorting.Permutation.
 
 (* (1) Decisions, memory, and delivery, for EVERY schedule of span arrivals (owned and not owned traces), stress
@@ -43,6 +43,25 @@ Theorem C16_upstream_requests_intact : forall own keep_rule ops o,
   In o (snd (hrun own keep_rule (negb probe_is_copy) hinit ops)) -> post_ok o.
 Proof. exact upstream_posts_intact. Qed.
 Print Assumptions C16_upstream_requests_intact.
+
+(* (3') What the specification lists contain (so, by (1), what actually arrives): every event for Honeycomb is not a
+   probe, addressed to Honeycomb, and marked stressed (decided under stress) or late (remembered decision), never
+   both; every event for the owning peer is addressed to the owner of its trace and is either a stressed probe or a
+   plain unmarked forward; hence the owner's collector, which discards probes on receipt, only gets plain forwards. *)
+Theorem C16_honeycomb_events_shape : forall own keep_rule ops st seen buf,
+  Forall up_shape (spec_up own keep_rule st seen buf ops).
+Proof. exact spec_up_shape. Qed.
+Print Assumptions C16_honeycomb_events_shape.
+
+Theorem C16_owner_receives_probes_and_forwards : forall own keep_rule ops st seen buf,
+  Forall (pr_shape own) (spec_pr own keep_rule st seen buf ops).
+Proof. exact spec_pr_shape. Qed.
+Print Assumptions C16_owner_receives_probes_and_forwards.
+
+Theorem C16_owner_collects_only_forwards : forall own keep_rule ops st seen buf p,
+  In p (spec_pr own keep_rule st seen buf ops) -> p_probe p = false -> p_stressed p = false /\ p_late p = false.
+Proof. exact owner_collects_only_forwards. Qed.
+Print Assumptions C16_owner_collects_only_forwards.
 
 (* (4) The finding, on the model of the tree BEFORE the fix (the probe is the queued cell itself): trace 1 is
    owned by peer 1, trace 2 by this node, both kept under stress.  The upstream batch is posted to the PEER
